@@ -217,17 +217,38 @@ fn check_reader(c: i32) -> Result<(), Fail> {
             )),
         }
     } else {
-        let mut r = ShapeReader::new(Cursor::new(enc.shp)).map_err(|e| Fail::new("open-error", format!("{:?}", e)))?;
+        let mut r = ShapeReader::new(Cursor::new(enc.shp.clone())).map_err(|e| Fail::new("open-error", format!("{:?}", e)))?;
         if r.header().shape_type as i32 != c {
             return Err(Fail::new("header-type", format!("reader header type {:?} for code {}", r.header().shape_type, c)));
         }
         match r.iter_shapes().next() {
-            Some(Ok(s)) if variant_ty(&s) == base_ty && s.shapetype() as i32 == c => Ok(()),
-            other => Err(Fail::new(
-                "record-type",
-                format!("file of code {}: first shape {:?}", c, other.map(|r| r.map(|s| (variant_ty(&s), s.shapetype())))),
-            )),
+            Some(Ok(s)) if variant_ty(&s) == base_ty && s.shapetype() as i32 == c => {}
+            other => {
+                return Err(Fail::new(
+                    "record-type",
+                    format!("file of code {}: first shape {:?}", c, other.map(|r| r.map(|s| (variant_ty(&s), s.shapetype())))),
+                ))
+            }
         }
+        // the same .shp next to an index whose own header carries ANY valid code b: the .shp header still decodes to c
+        for b in VALID_CODES {
+            let mut shx = enc.shx.clone();
+            shx[32..36].copy_from_slice(&b.to_le_bytes());
+            let mut r = ShapeReader::with_shx(Cursor::new(enc.shp.clone()), Cursor::new(shx)).map_err(|e| Fail::new("open-error", format!(".shp code {} with .shx header code {}: {:?}", c, b, e)))?;
+            if r.header().shape_type as i32 != c {
+                return Err(Fail::new("header-type", format!(".shp header code {} decoded as {:?} (code {}) when the .shx header carries code {}", c, r.header().shape_type, r.header().shape_type as i32, b)));
+            }
+            match r.iter_shapes().next() {
+                Some(Ok(s)) if variant_ty(&s) == base_ty && s.shapetype() as i32 == c => {}
+                other => {
+                    return Err(Fail::new(
+                        "record-type",
+                        format!("file of code {} with .shx header code {}: first shape {:?}", c, b, other.map(|r| r.map(|s| (variant_ty(&s), s.shapetype())))),
+                    ))
+                }
+            }
+        }
+        Ok(())
     }
 }
 
@@ -377,7 +398,7 @@ impl SubCheck for CodeTable {
         // ShapeReader path on every interesting code (whole-file route)
         if rep.violation.is_none() {
             for &c in &interesting {
-                rep.inner_evaluations += 7;
+                rep.inner_evaluations += 7 + 14;
                 if let Err(f) = check_reader(c).and_then(|_| check_header_variants(c)) {
                     rep.violation = Some(Violation {
                         key: f.key,
